@@ -55,19 +55,31 @@ func IsError(t types.Type) bool {
 }
 
 // Zero returns the zero value as a string, for a given type.
+// The zero value of a struct or an array can only be written with the name of its type:
+// use ZeroValue for a type that is not known to be basic or nillable.
 func Zero(typ types.Type) string {
-	switch t := typ.(type) {
+	switch t := typ.Underlying().(type) {
 	case *types.Basic:
-		switch t.Kind() {
-		case types.String:
+		switch {
+		case t.Info()&types.IsString != 0:
 			return `""`
-		case types.Bool:
+		case t.Info()&types.IsBoolean != 0:
 			return "false"
-		default:
+		case t.Info()&types.IsNumeric != 0:
 			return "0"
 		}
 	}
 	return "nil"
+}
+
+// ZeroValue returns the zero value as a string, for any given type.
+// typeString prints a type as it is written in the generated package, see TypesMap.TypeString.
+func ZeroValue(typ types.Type, typeString func(types.Type) string) string {
+	switch typ.Underlying().(type) {
+	case *types.Struct, *types.Array:
+		return typeString(typ) + "{}"
+	}
+	return Zero(typ)
 }
 
 func IsComparable(tt types.Type) bool {
